@@ -18,12 +18,12 @@ import (
 	"strings"
 	"sync"
 
+	osig "github.com/ontio/ontology-crypto/signature"
 	"github.com/ontio/ontology/common"
 	"github.com/ontio/ontology/common/log"
 	"github.com/ontio/ontology/core/payload"
 	"github.com/ontio/ontology/core/types"
 	"github.com/ontio/ontology/core/validation"
-	osig "github.com/ontio/ontology-crypto/signature"
 	ontErrors "github.com/ontio/ontology/errors"
 	"verifharness/lib/sigasm"
 	"verifharness/lib/txgen"
@@ -260,25 +260,12 @@ func (m *monitor) reverifyAccepted(family string, b *base, raw []byte, o outcome
 	if v.DupKeys {
 		m.r.Count("obs/accepted_with_duplicate_keys_in_script")
 	}
-	if !v.OK && !(v.DupKeys && strings.Contains(v.Why, "distinct keys")) {
-		clause := v.Why
-		if i := strings.Index(clause, ": "); i >= 0 && strings.HasPrefix(clause, "set ") {
-			clause = clause[i+2:]
-		}
-		if j := strings.Index(clause, ":"); j >= 0 {
-			clause = clause[:j]
-		}
-		clause = strings.Map(func(c rune) rune {
-			if c >= '0' && c <= '9' {
-				return -1
-			}
-			return c
-		}, clause)
+	if !v.OK && !(v.DupKeys && v.Clause == "too-few-distinct-keys-signed") {
 		d := map[string]interface{}{"family": family, "reverify": v.Why}
 		for k, x := range detail {
 			d[k] = x
 		}
-		m.r.Violation("accepted-but-independent-verification-fails:"+strings.TrimSpace(clause), fmt.Sprintf("validator accepted, ontology-crypto re-verification says: %s (family %s)", v.Why, family), m.witness(b, raw, d))
+		m.r.Violation("accepted-but-independent-verification-fails:"+v.Clause, fmt.Sprintf("validator accepted, ontology-crypto re-verification says: %s (family %s)", v.Why, family), m.witness(b, raw, d))
 	}
 	return v
 }
@@ -468,8 +455,9 @@ func (m *monitor) doBase(rng *vf.RNG, i int) {
 		return
 	}
 	if !o.accepted() {
-		// "only if" statement: rejecting a valid transaction does not contradict it.  Informational,
-		// but the mutants of this base would be vacuous, so they are not run.
+		// "only if" statement: rejecting a valid transaction does not contradict it.  Informational
+		// (the run ends inconclusive).  The mutants are still run: that they must be rejected is
+		// known by construction, whatever the validator says about the base.
 		r.Count("valid_tx_rejected")
 		why := fmt.Sprint(o.decodeErr)
 		if o.decodeErr == nil {
@@ -484,26 +472,29 @@ func (m *monitor) doBase(rng *vf.RNG, i int) {
 			m.info = append(m.info, map[string]interface{}{"key": "valid-tx-rejected:" + b.shape, "why": why, "independent_reverification_ok": v.OK, "independent_reverification": v.Why, "tx_hex": vf.Hex(b.raw)})
 		}
 		m.mu.Unlock()
-		return
-	}
-	r.Count("base_accepted")
-	r.Count(fmt.Sprintf("base_accepted/sets=%d", len(b.sets)))
-	for _, s := range b.sets {
-		if s.Multi {
-			r.Count("base_accepted/multi")
-			r.Count(fmt.Sprintf("base_accepted/multi/n=%d", len(s.Keys)))
-			for _, k := range s.Keys {
-				r.Count("base_accepted/multi-member/" + k.Kind.String())
+		if o.tx == nil {
+			return
+		}
+	} else {
+		r.Count("base_accepted")
+		r.Count(fmt.Sprintf("base_accepted/sets=%d", len(b.sets)))
+		for _, s := range b.sets {
+			if s.Multi {
+				r.Count("base_accepted/multi")
+				r.Count(fmt.Sprintf("base_accepted/multi/n=%d", len(s.Keys)))
+				for _, k := range s.Keys {
+					r.Count("base_accepted/multi-member/" + k.Kind.String())
+				}
+			} else {
+				r.Count("base_accepted/single/" + s.Keys[0].Kind.String())
 			}
-		} else {
-			r.Count("base_accepted/single/" + s.Keys[0].Kind.String())
+			if strings.HasSuffix(s.Label, "/varied") {
+				r.Count("base_accepted/non-canonical-script")
+			}
 		}
-		if strings.HasSuffix(s.Label, "/varied") {
-			r.Count("base_accepted/non-canonical-script")
+		if v := m.reverifyAccepted("valid-base", b, b.raw, o, nil); v.OK {
+			r.Count("base_reverified_ok")
 		}
-	}
-	if v := m.reverifyAccepted("valid-base", b, b.raw, o, nil); v.OK {
-		r.Count("base_reverified_ok")
 	}
 	// the validator's hash must be the monitor's hash
 	if th := o.tx.Hash(); th != common.Uint256(b.hash) {
@@ -972,16 +963,16 @@ func main() {
 
 	if n := r.Counter("valid_tx_rejected"); n > 0 {
 		r.Extra("informational_valid_tx_rejected", m.info)
-		r.Inconclusive(fmt.Sprintf("%d valid-by-construction transactions were rejected (informational for an only-if statement; their mutants were not run) — see coverage.informational_valid_tx_rejected", n))
+		r.Inconclusive(fmt.Sprintf("%d valid-by-construction transactions were rejected (informational for an only-if statement; the must-be-rejected verdicts of their mutants stand, but positive coverage is missing) — see coverage.informational_valid_tx_rejected", n))
 		fmt.Printf("INFO property=C16 valid-tx-rejected: %d valid transactions rejected, first: %v\n", n, m.info[0])
 	}
 	r.Extra("exhaustive", false)
 	r.Extra("exhaustive_scope", "per base with index%4==0 and <=260 unsigned bytes: every byte position of the unsigned content (1 bit; all 8 bits when index%16==0); per base with index%8==0: every byte of one required signature")
 	r.Extra("observations_outside_domain", map[string]int64{
-		"surplus_invalid_signature_accepted":   r.Counter("observed/surplus-invalid-signature/accepted"),
-		"surplus_invalid_signature_rejected":   r.Counter("observed/surplus-invalid-signature/rejected"),
-		"same_key_listed_twice_accepted":       r.Counter("observed/same-key-listed-twice/accepted"),
-		"multisig_form_with_one_key_accepted":  r.Counter("observed/multisig-form-with-one-key/accepted"),
+		"surplus_invalid_signature_accepted":    r.Counter("observed/surplus-invalid-signature/accepted"),
+		"surplus_invalid_signature_rejected":    r.Counter("observed/surplus-invalid-signature/rejected"),
+		"same_key_listed_twice_accepted":        r.Counter("observed/same-key-listed-twice/accepted"),
+		"multisig_form_with_one_key_accepted":   r.Counter("observed/multisig-form-with-one-key/accepted"),
 		"signature_section_flip_still_accepted": r.Counter("observed/flip-signature-section/accepted"),
 	})
 	r.Assume("ontology-crypto's signature.Verify is the definition of 'a signature verifies' (oracle b re-uses it; it is not part of /repo)")
